@@ -205,6 +205,27 @@ def validate_before_publish(ctx, prog, spec, crc_kind, rule="R3"):
     assigns = field_assignments(f, spec["adt"], spec["key"])
     somes = [(bi, si, rv) for bi, si, kind, rv in assigns if kind == "stmt" and not _is_none_value(f, rv)]
     somes += [(bi, si, rv) for bi, si, kind, rv in assigns if kind == "call"]
+    # `key = flag.then_some(page)` / `key = if ok { Some(page) } else { None }`: one store fed by two arms - the
+    # publication is the arm that builds Some(..)
+    expanded = []
+    for bi, si, rv in somes:
+        src = op_place(rv["op"]) if isinstance(rv, dict) and rv.get("k") == "use" else None
+        for _ in range(3):
+            if src is None or src["proj"]:
+                break
+            dd = f.defs().get(src["local"], [])
+            if len(dd) == 1 and dd[0][0] == "stmt" and dd[0][1]["k"] == "use" and not dd[0][4]["proj"]:
+                src = op_place(dd[0][1]["op"])
+                continue
+            break
+        dd = f.defs().get(src["local"], []) if src is not None and not src["proj"] else []
+        if len(dd) >= 2 and all(d[0] == "stmt" and not d[4]["proj"] and d[1]["k"] == "aggregate" and d[1]["kind"].get("variant") in ("Some", "None") for d in dd):
+            for d in dd:
+                if d[1]["kind"].get("variant") == "Some" and d[2] in f.cfg():
+                    expanded.append((d[2], d[3], d[1]))
+        else:
+            expanded.append((bi, si, rv))
+    somes = expanded
     # comparison calls
     cmps = []
     for bi, t in f.calls(lambda c, t: c.rsplit("::", 1)[-1] in ("ne", "eq")):
